@@ -29,6 +29,7 @@ import SoyVerif.Props.C04b
 import SoyVerif.Props.C04c
 import SoyVerif.Spec.JsStmt
 import SoyVerif.Lemmas.JsonValue
+import SoyVerif.Props.C02Spec
 
 namespace SoyVerif.Props.C04d
 open SoyVerif SoyVerif.Model SoyVerif.Model.JsGen SoyVerif.Spec.JsSemRef SoyVerif.Spec.JsStmt
@@ -1722,12 +1723,29 @@ def specPlain (v : Val) : Out Bytes :=
   if Spec.Eval.isUndef v then .error
   else (Spec.Eval.showVal v).bind fun s => .val (if ae != .off then htmlEscape s else s)
 
+/-- Spec/Eval's print (the `.print` clause of `renderCmd` after the argument is evaluated): without a directive
+    semantics a print with directives is `unspec`; an undefined value is an error; the directives left to right, then
+    ToString, HTML-escaped if the flag is still set -/
+def specPrint (dsem : Option Spec.Eval.LibSem) (esc : Bool) (env : SEnv) (dirs : List Directive) (v : Val) : Out Bytes :=
+  if !dirs.isEmpty && (Spec.Eval.dirsOf dsem).isNone then .unspec
+  else if Spec.Eval.isUndef v then .error
+  else (Spec.Eval.runDirs (Spec.Eval.dirsOf dsem) env dirs v esc).bind fun r =>
+    (Spec.Eval.showVal r.1).bind fun s => .val (if r.2 then htmlEscape s else s)
+
+/-- the Go library as Spec/Eval's library semantics (Props/C02Spec `modelDirSem` of the live table; = Props/C04g `goLib`) -/
+def goLibD : Spec.Eval.LibSem := { dirs := some (SoyVerif.Props.C02Spec.modelDirSem Gen.directiveTable) }
+
+/-- an environment for the literal arguments of directives (they look nothing up) -/
+def env0 : SEnv := { vars := [], loops := [], ij := none, globals := [] }
+
 /-- the text of a print in the reference semantics: through the JSON image and the library functions `F` where that
-    says something; where it is silent (a value without a JSON image, a list or a map, a function `F` leaves open) and
-    the print has NO directive, what Spec/Eval prints -/
+    says something; where it is silent (a value without a JSON image, a list or a map, a function `F` leaves open)
+    what Spec/Eval prints — with the Go library, if the print has directives.  (The theorems about the generated
+    statements look at the `val` / `error` answers of `refPrintJs` only; the fall-back makes the reference total where
+    Spec/Eval is, which is what the converse theorems against Spec/Eval need.) -/
 def refPrint (dirs : List Directive) (v : Val) : Out Bytes :=
   match refPrintJs F ae dirs v with
-  | .unspec => if dirs.isEmpty then specPlain ae v else .unspec
+  | .unspec => if dirs.isEmpty then specPlain ae v else specPrint (some goLibD) (ae != .off) env0 dirs v
   | o => o
 
 /-- the data a call passes on before its params: the caller's entry data (`data="all"`), the map `data="$e"`
@@ -4754,15 +4772,6 @@ abbrev plainCmd (hb : Bool) : Cmd → Bool := dirCmd noDirs hb
 abbrev plainBlock (hb : Bool) : Block → Bool := dirBlock noDirs hb
 abbrev plainCmds (hb : Bool) : CmdList → Bool := dirCmds noDirs hb
 
-/-- Spec/Eval's print (the `.print` clause of `renderCmd` after the argument is evaluated): without a directive
-    semantics a print with directives is `unspec`; an undefined value is an error; the directives left to right, then
-    ToString, HTML-escaped if the flag is still set -/
-def specPrint (dsem : Option Spec.Eval.LibSem) (esc : Bool) (env : SEnv) (dirs : List Directive) (v : Val) : Out Bytes :=
-  if !dirs.isEmpty && (Spec.Eval.dirsOf dsem).isNone then .unspec
-  else if Spec.Eval.isUndef v then .error
-  else (Spec.Eval.runDirs (Spec.Eval.dirsOf dsem) env dirs v esc).bind fun r =>
-    (Spec.Eval.showVal r.1).bind fun s => .val (if r.2 then htmlEscape s else s)
-
 theorem out_bind_val {α β : Type} {o : Out α} {f : α → Out β} {b : β} (h : o.bind f = .val b) : ∃ a, o = .val a ∧ f a = .val b := by
   cases o with
   | val a => exact ⟨a, rfl, h⟩
@@ -5285,30 +5294,58 @@ section
 variable (F : Bytes → List Expr → JVal → JOut) (ae : Autoescape) (hesc : EscapeHtmlIs F)
 variable (reg : Registry.Reg) (hasBundle : Bool) (entry : Spec.Eval.Binds)
 variable (call call' : Registry.Tmpl → Spec.Eval.CallEnv → Out Bytes)
+variable (ok : List Directive → Bool) (dsem : Option Spec.Eval.LibSem)
+variable (hge : ∀ (dirs : List Directive) (env : SEnv) (v : Val) (s : Bytes), ok dirs = true →
+  specPrint dsem (ae != .off) env dirs v = .val s → refPrint F ae dirs v = .val s)
 variable (hcall : ∀ (name : Bytes) (t : Registry.Tmpl) (ce : Spec.Eval.CallEnv) (out : Bytes),
   Registry.lookup reg name = some t → call' t ce = .val out → call t ce = .val out)
-include hesc hcall
+include hesc
+
+/-- the hypothesis `hge` of `spec_le_ref_*` for directive-free prints (any library semantics on the other side) -/
+theorem print_ge_noDirs (dsem : Option Spec.Eval.LibSem) (dirs : List Directive) (env : SEnv) (v : Val) (s : Bytes)
+    (hd : noDirs dirs = true) (h : specPrint dsem (ae != .off) env dirs v = .val s) : refPrint F ae dirs v = .val s := by
+  have hd : dirs = [] := by simpa [noDirs] using hd
+  subst hd
+  rw [refPrint_nil_eq F ae hesc]
+  unfold specPrint at h
+  simp only [List.isEmpty_nil, Bool.not_true, Bool.false_and, Bool.false_eq_true, if_false, Spec.Eval.runDirs,
+    Spec.Eval.Out.bind] at h
+  unfold specPlain
+  exact h
+
+/-- where the `.print` clause of Spec/Eval.renderCmd renders, `specPrint` renders -/
+theorem renderCmd_print_inv (escape : Bool) (p : Nat) (arg : Expr) (dirs : List Directive) (env : SEnv) (r : Bytes × SEnv)
+    (h : Spec.Eval.renderCmd reg hasBundle escape entry call' dsem (.print p arg dirs) env = .val r) :
+    ∃ v s, Spec.Eval.eval env arg = .val v ∧ specPrint dsem escape env dirs v = .val s ∧ r = (s, env) := by
+  rw [Spec.Eval.renderCmd] at h
+  split at h
+  · cases h
+  · rename_i hc
+    obtain ⟨v, hv, h⟩ := out_bind_val h
+    refine ⟨v, ?_⟩
+    split at h
+    · cases h
+    · rename_i hu
+      obtain ⟨rr, hr, h⟩ := out_bind_val h
+      obtain ⟨s0, hs0, h⟩ := out_bind_val h
+      simp only [Out.val.injEq] at h
+      refine ⟨_, hv, ?_, h.symm⟩
+      unfold specPrint
+      rw [if_neg hc, if_neg hu]
+      simp [hr, hs0, Spec.Eval.Out.bind]
+
+include hge hcall
 
 mutual
-  theorem spec_le_ref_cmd : ∀ (c : Cmd) (env : SEnv) (r : Bytes × SEnv), dirCmd noDirs hasBundle c = true →
-      Spec.Eval.renderCmd reg hasBundle (ae != .off) entry call' none c env = .val r → refCmd F ⟨reg, entry, call⟩ ae c env = .val r
+  theorem spec_le_ref_cmd : ∀ (c : Cmd) (env : SEnv) (r : Bytes × SEnv), dirCmd ok hasBundle c = true →
+      Spec.Eval.renderCmd reg hasBundle (ae != .off) entry call' dsem c env = .val r → refCmd F ⟨reg, entry, call⟩ ae c env = .val r
     | .rawText p t, env, r, _, h => by
       rw [Spec.Eval.renderCmd] at h
       simpa [refCmd] using h
     | .print p arg dirs, env, r, hp, h => by
-      have hd : dirs = [] := by simpa [dirCmd, noDirs] using hp
-      subst hd
-      rw [Spec.Eval.renderCmd] at h
-      simp only [List.isEmpty_nil, Bool.not_true, Bool.false_and, Bool.false_eq_true, if_false] at h
-      obtain ⟨v, hv, h⟩ := out_bind_val h
-      simp only [refCmd, refPrint_nil_eq F ae hesc, hv, Spec.Eval.Out.bind, specPlain]
-      cases hu : Spec.Eval.isUndef v
-      · simp only [hu, Bool.false_eq_true, if_false, Spec.Eval.runDirs, Spec.Eval.Out.bind] at h ⊢
-        cases hs : Spec.Eval.showVal v with
-        | val s0 => simp only [hs] at h ⊢; exact h
-        | error => simp [hs] at h
-        | unspec => simp [hs] at h
-      · simp [hu] at h
+      have hd : ok dirs = true := by simpa [dirCmd] using hp
+      obtain ⟨v, s, hv, hs, rfl⟩ := renderCmd_print_inv F hesc reg hasBundle entry call' dsem (ae != .off) p arg dirs env r h
+      simp only [refCmd, hv, Spec.Eval.Out.bind, hge dirs env v s hd hs]
     | .letValue p x e, env, r, _, h => by
       rw [Spec.Eval.renderCmd] at h
       simpa [refCmd] using h
@@ -5379,7 +5416,7 @@ mutual
       simp only [refCmd]
       obtain ⟨sv, hsv, h⟩ := out_bind_val h
       obtain ⟨out, ho, h⟩ := out_bind_val h
-      have hc : Spec.Eval.renderCases reg hasBundle (ae != .off) entry call' none cases sv env = .val out := by
+      have hc : Spec.Eval.renderCases reg hasBundle (ae != .off) entry call' dsem cases sv env = .val out := by
         rw [Spec.Eval.renderCases]; exact ho
       rw [hsv]
       simp only [Spec.Eval.Out.bind]
@@ -5463,8 +5500,8 @@ mutual
     | .namespace .., _, _, hp, _ => by simp [dirCmd] at hp
     | .template .., _, _, hp, _ => by simp [dirCmd] at hp
     | .soyDoc .., _, _, hp, _ => by simp [dirCmd] at hp
-  theorem spec_le_ref_parts : ∀ (ps : MsgParts) (env : SEnv) (r : Bytes × SEnv), dirParts noDirs hasBundle ps = true →
-      Spec.Eval.renderParts reg hasBundle (ae != .off) entry call' none ps env = .val r →
+  theorem spec_le_ref_parts : ∀ (ps : MsgParts) (env : SEnv) (r : Bytes × SEnv), dirParts ok hasBundle ps = true →
+      Spec.Eval.renderParts reg hasBundle (ae != .off) entry call' dsem ps env = .val r →
       refParts F ⟨reg, entry, call⟩ ae ps env = .val r
     | .nil, env, r, _, h => by
       rw [Spec.Eval.renderParts] at h
@@ -5509,8 +5546,8 @@ mutual
       rw [spec_le_ref_parts rest r1.2 r2 hp.2 h2]
       exact h
   theorem spec_le_ref_plural : ∀ (cs : PluralCases) (i : Int) (env : SEnv) (dfltF : SEnv → Spec.Eval.ROut) (r : Bytes × SEnv),
-      dirPCases noDirs hasBundle cs = true →
-      Spec.Eval.renderPlural reg hasBundle (ae != .off) entry call' none cs dfltF i env = .val r →
+      dirPCases ok hasBundle cs = true →
+      Spec.Eval.renderPlural reg hasBundle (ae != .off) entry call' dsem cs dfltF i env = .val r →
       refPlural F ⟨reg, entry, call⟩ ae cs i env = some (.val r) ∨
         (refPlural F ⟨reg, entry, call⟩ ae cs i env = none ∧ dfltF env = .val r)
     | .nil, i, env, dfltF, r, _, h => by
@@ -5525,8 +5562,8 @@ mutual
         exact Or.inl (by rw [spec_le_ref_parts body env r hp.1 h])
       · simp only [hiv, Bool.false_eq_true, if_false] at h ⊢
         exact spec_le_ref_plural rest i env dfltF r hp.2 h
-  theorem spec_le_ref_ph : ∀ (b : MsgPhBody) (env : SEnv) (r : Bytes × SEnv), dirPh noDirs hasBundle b = true →
-      Spec.Eval.renderPh reg hasBundle (ae != .off) entry call' none b env = .val r →
+  theorem spec_le_ref_ph : ∀ (b : MsgPhBody) (env : SEnv) (r : Bytes × SEnv), dirPh ok hasBundle b = true →
+      Spec.Eval.renderPh reg hasBundle (ae != .off) entry call' dsem b env = .val r →
       refPh F ⟨reg, entry, call⟩ ae b env = .val r
     | .htmlTag p t, env, r, _, h => by
       rw [Spec.Eval.renderPh] at h
@@ -5535,8 +5572,8 @@ mutual
       rw [Spec.Eval.renderPh] at h
       simp only [refPh]
       exact spec_le_ref_cmd c env r (by simpa [dirPh] using hp) h
-  theorem spec_le_ref_params : ∀ (ps : ParamList) (env : SEnv) (out : Spec.Eval.Binds), dirParams noDirs hasBundle ps = true →
-      Spec.Eval.renderParams reg hasBundle (ae != .off) entry call' none ps env = .val out →
+  theorem spec_le_ref_params : ∀ (ps : ParamList) (env : SEnv) (out : Spec.Eval.Binds), dirParams ok hasBundle ps = true →
+      Spec.Eval.renderParams reg hasBundle (ae != .off) entry call' dsem ps env = .val out →
       refParams F ⟨reg, entry, call⟩ ae ps env = .val out
     | .nil, env, out, _, h => by
       rw [Spec.Eval.renderParams] at h
@@ -5560,14 +5597,14 @@ mutual
       simp only [Spec.Eval.Out.bind]
       rw [spec_le_ref_params rest env r hp.2 hr]
       exact h
-  theorem spec_le_ref_block : ∀ (b : Block) (env : SEnv) (out : Bytes), dirBlock noDirs hasBundle b = true →
-      Spec.Eval.renderBlock reg hasBundle (ae != .off) entry call' none b env = .val out → refBlock F ⟨reg, entry, call⟩ ae b env = .val out
+  theorem spec_le_ref_block : ∀ (b : Block) (env : SEnv) (out : Bytes), dirBlock ok hasBundle b = true →
+      Spec.Eval.renderBlock reg hasBundle (ae != .off) entry call' dsem b env = .val out → refBlock F ⟨reg, entry, call⟩ ae b env = .val out
     | .mk p cmds, env, out, hp, h => by
       rw [Spec.Eval.renderBlock] at h
       simp only [refBlock]
       exact spec_le_ref_cmds cmds env out (by simpa [dirBlock] using hp) h
-  theorem spec_le_ref_cmds : ∀ (cs : CmdList) (env : SEnv) (out : Bytes), dirCmds noDirs hasBundle cs = true →
-      Spec.Eval.renderCmds reg hasBundle (ae != .off) entry call' none cs env = .val out → refCmds F ⟨reg, entry, call⟩ ae cs env = .val out
+  theorem spec_le_ref_cmds : ∀ (cs : CmdList) (env : SEnv) (out : Bytes), dirCmds ok hasBundle cs = true →
+      Spec.Eval.renderCmds reg hasBundle (ae != .off) entry call' dsem cs env = .val out → refCmds F ⟨reg, entry, call⟩ ae cs env = .val out
     | .nil, env, out, _, h => by
       rw [Spec.Eval.renderCmds] at h
       simpa [refCmds] using h
@@ -5581,8 +5618,8 @@ mutual
       simp only [Spec.Eval.Out.bind]
       rw [spec_le_ref_cmds rest r1.2 more hp.2 h2]
       exact h
-  theorem spec_le_ref_cases : ∀ (cs : CaseList) (sv : Val) (env : SEnv) (out : Bytes), dirCases noDirs hasBundle cs = true →
-      Spec.Eval.renderCases reg hasBundle (ae != .off) entry call' none cs sv env = .val out → refCases F ⟨reg, entry, call⟩ ae cs sv env = .val out
+  theorem spec_le_ref_cases : ∀ (cs : CaseList) (sv : Val) (env : SEnv) (out : Bytes), dirCases ok hasBundle cs = true →
+      Spec.Eval.renderCases reg hasBundle (ae != .off) entry call' dsem cs sv env = .val out → refCases F ⟨reg, entry, call⟩ ae cs sv env = .val out
     | .nil, sv, env, out, _, h => by
       rw [Spec.Eval.renderCases, Spec.Eval.renderMatch, Spec.Eval.renderDefault] at h
       simpa [refCases, Spec.Eval.Out.bind, Spec.Eval.orDefault] using h
@@ -5626,8 +5663,8 @@ mutual
           apply spec_le_ref_cases rest sv env out hpr
           rw [Spec.Eval.renderCases, ho1]
           exact h
-  theorem spec_le_ref_conds : ∀ (cs : CondList) (env : SEnv) (out : Bytes), dirConds noDirs hasBundle cs = true →
-      Spec.Eval.renderConds reg hasBundle (ae != .off) entry call' none cs env = .val out → refConds F ⟨reg, entry, call⟩ ae cs env = .val out
+  theorem spec_le_ref_conds : ∀ (cs : CondList) (env : SEnv) (out : Bytes), dirConds ok hasBundle cs = true →
+      Spec.Eval.renderConds reg hasBundle (ae != .off) entry call' dsem cs env = .val out → refConds F ⟨reg, entry, call⟩ ae cs env = .val out
     | .nil, env, out, _, h => by
       rw [Spec.Eval.renderConds] at h
       simpa [refConds] using h
